@@ -197,19 +197,68 @@ def gain_case(p, res):
             if abs(m) ** 2 > 1e-6:
                 v("unit-gain", f"Rayleigh gains have non-zero mean {m}")
         res.outcome((ft, par, round(g2, 3)))
-    # noise calibrated relative to the FADED signal (csi supplied, noise drawn)
+    # noise calibrated relative to the FADED signal (csi supplied, noise drawn): the reference is mean |h.x|^2 of THIS input, for signals whose
+    # power is spread evenly, concentrated where the gain is high, or concentrated where it is low (bursts with zero padding included)
+    i = torch.arange(N, dtype=torch.float32)
+    ph = torch.complex(torch.cos(0.3 * i), torch.sin(0.3 * i))
+    env = 1.0 + 0.9 * torch.cos(2 * math.pi * i / N)
+    burst = (i < N // 4).to(torch.float32)
+    patterns = {"flat": (ph, torch.complex(0.3 + 0.1 * torch.cos(0.01 * i), 0.0 * i)),
+                "correlated": (ph * env, torch.complex(env, 0.0 * i)),
+                "anticorrelated": (ph * env, torch.complex(2.0 - env, 0.1 + 0.0 * i)),
+                "burst-strong": (ph * burst, torch.complex(0.1 + 1.9 * burst, 0.0 * i)),
+                "burst-weak": (ph * burst, torch.complex(2.0 - 1.9 * burst, 0.0 * i))}
     for snr in (0.0, 10.0, 30.0):
-        cfg = f"{par},{how},snr={snr}"
         ch = make(ft, par, how, 4, snr_db=snr)
-        i = torch.arange(N, dtype=torch.float32)
-        x = torch.complex(torch.cos(0.3 * i), torch.sin(0.3 * i)).reshape(1, N)
-        h = torch.complex(0.3 + 0.1 * torch.cos(0.01 * i), 0.0 * i).reshape(1, N)
-        with Seam(Quantile()):
-            y = ch(x, csi=h)
-        res.ev(1, transitions=1)
-        nz = (y - h * x).to(torch.complex128)
-        pn = float((nz.abs() ** 2).mean())
-        want = float(((h * x).abs().double() ** 2).mean()) / 10 ** (snr / 10)
-        if abs(pn - want) > 5e-3 * want:
-            res.viol(ft, cfg, "noise-calibrated", f"noise power {pn:.6g}, expected faded-signal power / SNR = {want:.6g} (ratio {pn / want:.4f})")
+        for pname, (x1, h1) in patterns.items():
+            for shape in ((1, N), (N,), (8, N // 8), (2, 4, N // 8)):
+                if shape != (1, N) and (snr != 10.0 or pname == "flat"):
+                    continue
+                cfg = f"{par},{how},snr={snr}" + ("" if pname == "flat" else f",{pname},shape={'x'.join(map(str, shape))}")
+                x = x1.reshape(shape)
+                h = h1 if len(shape) == 1 else h1.reshape(shape[0], -1)
+                try:
+                    with Seam(Quantile()):
+                        y = ch(x, csi=h)
+                except Exception as e:  # noqa: BLE001
+                    res.viol(ft, cfg, "raises", f"csi supplied, noise by SNR: {type(e).__name__}: {str(e)[:200]}")
+                    continue
+                res.ev(1, nontrivial=1, transitions=1)
+                hx = (h.reshape(-1) * x.reshape(-1)).to(torch.complex128)
+                nz = y.reshape(-1).to(torch.complex128) - hx
+                pn = float((nz.abs() ** 2).mean())
+                want = float((hx.abs() ** 2).mean()) / 10 ** (snr / 10)
+                if abs(pn - want) > 5e-3 * want:
+                    res.viol(ft, cfg, "noise-calibrated", f"noise power {pn:.6g}, expected faded-signal power / SNR = {want:.6g} (ratio {pn / want:.4f})")
+    # the same with DRAWN fading: a probe run (ones in, zero noise) reveals the gains the answer policy produces; the signal is then switched on
+    # only where the gain is below / above its median, and the noise of the SNR run is y - h.x with h.x taken from a zero-noise run
+    for shape, T in (((1, N), 4), ((8, N // 8), 16)):
+        for where in ("weak", "strong"):
+            for snr in (10.0, 30.0):
+                cfg = f"{par},{how},snr={snr},drawn,{where},shape={'x'.join(map(str, shape))},T={T}"
+                zeros = torch.zeros(shape, dtype=torch.complex64)
+                try:
+                    with Seam(Quantile()):
+                        hp = make(ft, par, how, T, avg_noise_power=1.0)(torch.ones(shape, dtype=torch.complex64), noise=zeros)
+                    g = hp.abs() ** 2
+                    on = (g < g.median()) if where == "weak" else (g >= g.median())
+                    x = ph.reshape(shape) * on.to(torch.float32)
+                    with Seam(Quantile()):
+                        y0 = make(ft, par, how, T, avg_noise_power=1.0)(x, noise=zeros)
+                    with Seam(Quantile()):
+                        y = make(ft, par, how, T, snr_db=snr)(x)
+                except Exception as e:  # noqa: BLE001
+                    res.viol(ft, cfg, "raises", f"drawn fading, noise by SNR: {type(e).__name__}: {str(e)[:200]}")
+                    continue
+                res.ev(1, nontrivial=1, transitions=3)
+                nz = (y - y0).to(torch.complex128)
+                p_on = float((nz[on].abs() ** 2).mean())
+                p_off = float((nz[~on].abs() ** 2).mean())
+                if float((y0 - hp * x).abs().max()) > 1e-5 or not (0.8 < p_on / p_off < 1.25):
+                    res.undecided += 1       # the gains of the three runs are not the same realisation (different draw order): nothing to compare
+                    continue
+                pn = float((nz.abs() ** 2).mean())
+                want = float((y0.abs().double() ** 2).mean()) / 10 ** (snr / 10)
+                if abs(pn - want) > 1e-2 * want:
+                    res.viol(ft, cfg, "noise-calibrated", f"drawn fading, signal only where the gain is {where}: noise power {pn:.6g}, expected faded-signal power / SNR = {want:.6g} (ratio {pn / want:.4f})")
     res.sample({"type": ft, "param": par, "blocks": N})
